@@ -699,3 +699,25 @@ fn joint<F: Fn(u32, u32) -> [u8; 7] + Sync>(ctx: &Ctx, na: u32, nb: u32, step: u
         }
     });
 }
+
+/// Base frames of the two-decode sequences (C01, C07): one reply per register hypothesis in DF20 and DF21, the
+/// extended-squitter kinds on DF17 and DF18, and the short formats
+pub fn sequence_bases() -> Vec<Vec<u8>> {
+    let mut bases: Vec<Vec<u8>> = Vec::new();
+    for name in REGISTERS {
+        bases.push(df20_21(20, 0, 0, 0, ac13_q(35000), &exemplar(name), 0x4840d6));
+        bases.push(df20_21(21, 0, 0, 0, id13(1, 2, 3, 4), &exemplar(name), 0x4840d6));
+    }
+    bases.push(df20_21(20, 0, 0, 0, 0x0b5a, &exemplar("bds05"), 0x4840d6));
+    for me in [me_bds08(4, 0, &cs_codes("KLM1023")), me_bds05(11, 0, 0, ac12_q(35000), 0, 0, 93000, 51372), me_bds05(20, 0, 0, 0x081, 0, 1, 93000, 51372), me_bds06(7, 20, 1, 64, 0, 1, 1000, 2000), me_bds09_gs(1, 0, 0, 0, 0, 100, 1, 200, 0, 0, 10, 0, 5), me_bds09_as(3, 0, 0, 0, 1, 512, 1, 300, 0, 1, 10, 0, 5), me_bds61(1, 0, id13(7, 7, 0, 0)), me_bds62(1, 0, 1000, 300, 1, 100, 9, 1, 3, 0), me_bds65(0, 0, 0, 2, 0, 9, 0), me_bds65(1, 0, 0, 1, 0, 9, 0)] {
+        bases.push(df17(5, 0x4840d6, &me, 0));
+        bases.push(df18(2, 0x4840d6, &me, 0));
+    }
+    bases.push(df11(5, 0x4840d6, 0));
+    bases.push(df0(0, 0, 3, 3, ac13_q(12000), 0x4840d6));
+    bases.push(df4_5(4, 0, 0, 0, ac13_q(35000), 0x4840d6));
+    bases.push(df4_5(4, 0, 0, 0, 0x0b5a, 0x4840d6));
+    bases.push(df4_5(5, 0, 0, 0, id13(1, 2, 3, 4), 0x4840d6));
+    bases.push(df16(0, 3, 3, ac13_q(12000), &[0x30, 0, 0, 0, 0, 0, 0], 0x4840d6));
+    bases
+}
